@@ -1839,3 +1839,330 @@ theorem PendNe.micro {s : Sys} (hw : WInv s) (h : PendNe s) (m : Micro) : PendNe
   | tick ms => exact h
 
 end QM.Sys
+
+namespace QM.Sys
+variable [Cfg]
+
+/-! ## `Checked`: after every complete choice no worker keeps an awaiter registered for a process with a result -/
+
+/-- a registration is always for an `awaited` target (micro-step invariant) -/
+def RegAwaited (s : Sys) : Prop := ∀ w t, (s.wk w).awaitersFor t ≠ [] → t ∈ (s.wk w).awaited
+
+theorem queryTargets_regAwaited (a : Pid) : ∀ (ts : List Pid) (w : WorkerSt),
+    (∀ t, w.awaitersFor t ≠ [] → t ∈ w.awaited) →
+    ∀ t, (queryTargets w a ts).1.awaitersFor t ≠ [] → t ∈ (queryTargets w a ts).1.awaited
+  | [], w, h => h
+  | t0 :: rest, w, h => by
+    unfold queryTargets
+    cases hc : w.completedStatus t0 with
+    | some r => exact queryTargets_regAwaited a rest w h
+    | none =>
+      simp only []
+      apply queryTargets_regAwaited a rest
+      intro t ht
+      simp only [] at ht ⊢
+      by_cases htt : t = t0
+      · subst htt; exact mem_sinsert.mpr (Or.inr rfl)
+      · rw [upd_other _ _ _ _ htt] at ht; exact mem_sinsert.mpr (Or.inl (h t ht))
+
+theorem wakeSelecting_awaited (w : WorkerSt) (p : Pid) : (w.wakeSelecting p).awaited = w.awaited := by
+  unfold WorkerSt.wakeSelecting; split <;> rfl
+
+theorem modProc_awaited (w : WorkerSt) (p : Pid) (f : Proc → Proc) : (w.modProc p f).awaited = w.awaited := by
+  unfold WorkerSt.modProc; split <;> rfl
+
+theorem notifyResult_awaited (w : WorkerSt) (a t : Pid) (r : Res) : (w.notifyResult a t r).awaited = w.awaited := by
+  cases r with
+  | ok v => simp [WorkerSt.notifyResult, WorkerSt.notifyResultOk, wakeSelecting_awaited, modProc_awaited]
+  | err =>
+    simp only [WorkerSt.notifyResult, WorkerSt.notifyFailure]
+    split
+    · split
+      · simp [wakeSelecting_awaited, modProc_awaited]
+      · rfl
+    · rfl
+
+theorem applyResults_awaited (a : Pid) : ∀ (rs : Results) (w : WorkerSt), (applyResults w a rs).awaited = w.awaited
+  | [], w => rfl
+  | (t, none) :: rest, w => by
+    simp only [applyResults]; rw [applyResults_awaited a rest]; simp [WorkerSt.notifyPending, modProc_awaited]
+  | (t, some r) :: rest, w => by
+    simp only [applyResults]; rw [applyResults_awaited a rest, notifyResult_awaited]
+
+/-- a command other than QueryAndAwait leaves the `awaited` set alone -/
+theorem cmd_awaited (s : Sys) (i : Wid) (c : Cmd) (hc : ∀ a ts, c ≠ .queryAwait a ts) :
+    ((handleCmdWith Rules.current s i c).wk i).awaited = (s.wk i).awaited := by
+  have happ := applyResults_awaited
+  cases c with
+  | queryAwait a ts => exact absurd rfl (hc a ts)
+  | updateAwait a rs =>
+    simp only [handleCmdWith, Rules.current, Bool.false_and, Bool.false_eq_true, if_false, Sys.setWk, upd_same]
+    rw [wakeSelecting_awaited, happ]
+  | deliver t m =>
+    simp only [handleCmdWith]
+    repeat' split
+    all_goals
+      simp only [Sys.setWk, upd_same]
+      rw [wakeSelecting_awaited]
+  | _ =>
+    simp only [handleCmdWith]
+    repeat' split
+    all_goals simp [Sys.setWk, Sys.setFault, Sys.pushEvt, WorkerSt.setProc]
+
+end QM.Sys
+
+namespace QM.Sys
+variable [Cfg]
+
+theorem fold_notify_awaited (cur : Pid) (r : Res) : ∀ (l : List Pid) (w : WorkerSt),
+    (l.foldl (fun acc a => acc.notifyResult a cur r) w).awaited = w.awaited
+  | [], w => rfl
+  | a :: l, w => by simp only [List.foldl_cons]; rw [fold_notify_awaited cur r l, notifyResult_awaited]
+
+theorem finish_awaited (w : WorkerSt) (cur : Pid) (x : Proc) (ordQ : List Pid) : (w.finish cur x ordQ).awaited = w.awaited := by
+  unfold WorkerSt.finish WorkerSt.release
+  simp only []
+  split
+  · rw [modProc_awaited, fold_notify_awaited]
+  · rw [fold_notify_awaited]
+
+theorem exec_awaited (s : Sys) (i : Wid) (fuel : Nat) (ordQ : List Pid) :
+    ((execStep s i fuel ordQ).wk i).awaited = (s.wk i).awaited := by
+  have hce : ((s.wk i).checkExpired s.prog s.now ordQ).awaited = (s.wk i).awaited := rfl
+  unfold QM.Sys.execStep
+  simp only []
+  repeat' split
+  all_goals simp [Sys.setWk, Sys.pushEvt, noteExit_wk, finish_awaited, hce]
+
+theorem RegAwaited.micro {s : Sys} (h : RegAwaited s) (m : Micro) : RegAwaited (microStep Rules.current s m) := by
+  cases m with
+  | env w0 =>
+    simp only [microStep, Rules.current]
+    intro w t ht
+    rw [envStep1_wk] at ht ⊢
+    exact h w t ht
+  | cmd i =>
+    simp only [microStep]
+    unfold cmdStep1With
+    cases hq : s.cmdQ i with
+    | nil => exact h
+    | cons c rest =>
+      simp only []
+      have hfr := handleCmd_frame Rules.current { s with cmdQ := upd s.cmdQ i rest } i c
+      intro w t ht
+      by_cases hw : w = i
+      · subst hw
+        by_cases hc : ∃ a0 ts, c = .queryAwait a0 ts
+        · obtain ⟨a0, ts, rfl⟩ := hc
+          simp only [handleCmdWith, Sys.setWk, Sys.pushEvt, upd_same] at ht ⊢
+          exact queryTargets_regAwaited a0 ts _ (h w) t ht
+        · rw [cmd_awaiters _ _ _ (fun a0 ts e => hc ⟨a0, ts, e⟩)] at ht
+          rw [cmd_awaited _ _ _ (fun a0 ts e => hc ⟨a0, ts, e⟩)]
+          exact h w t ht
+      · rw [(hfr.2.2.2.2.2 w hw).1] at ht ⊢
+        exact h w t ht
+  | exec i fuel ordQ =>
+    simp only [microStep]
+    have hfr := execStep_frame s i fuel ordQ
+    intro w t ht
+    by_cases hw : w = i
+    · subst hw
+      rw [(ExecRel.execStep s w fuel ordQ).aw] at ht
+      rw [exec_awaited]
+      exact h w t ht
+    · rw [(hfr.2.2.2.2.2.2 w hw).1] at ht ⊢; exact h w t ht
+  | check i ordE =>
+    simp only [microStep]
+    unfold QM.Sys.checkStep
+    apply foldl_invariant RegAwaited
+    · intro s1 p h1
+      obtain ⟨_, _, _, _, _, _, h7, h8, _⟩ := answerRequests_explicit s1 i p
+      intro w t ht
+      by_cases hw : w = i
+      · subst hw; rw [h8] at ht ⊢
+        cases hr : (s1.wk w).resultOf p with
+        | none => simp only [hr] at ht ⊢; exact h1 w t ht
+        | some r => simp only [hr] at ht ⊢; exact h1 w t ht
+      · rw [(h7 w hw).1] at ht ⊢; exact h1 w t ht
+    · apply foldl_invariant RegAwaited
+      · intro s1 t0 h1
+        obtain ⟨_, _, _, _, _, _, h7, h8, _⟩ := reportTarget_explicit s1 i t0
+        intro w t ht
+        by_cases hw : w = i
+        · subst hw; rw [h8] at ht ⊢
+          cases hr : (s1.wk w).resultOf t0 with
+          | none => simp only [hr] at ht ⊢; exact h1 w t ht
+          | some r =>
+            simp only [hr] at ht ⊢
+            by_cases htt : t = t0
+            · subst htt; simp at ht
+            · simp only [upd_other _ _ _ _ htt] at ht
+              exact mem_serase.mpr ⟨h1 w t ht, htt⟩
+        · rw [(h7 w hw).1] at ht ⊢; exact h1 w t ht
+      · exact h
+  | tick ms => exact h
+
+end QM.Sys
+
+namespace QM.Sys
+variable [Cfg]
+
+/-- worker state: no awaiter is registered for a process that has a result -/
+def Chk (w : WorkerSt) : Prop := ∀ t, w.awaitersFor t ≠ [] → w.resultOf t = none
+
+theorem resultOf_congr {w w' : WorkerSt} (h : w'.procs = w.procs) (t : Pid) : w'.resultOf t = w.resultOf t := by
+  simp [WorkerSt.resultOf, h]
+
+theorem fold_report (i : Wid) : ∀ (l : List Pid) (s : Sys),
+    ((l.foldl (fun acc t => reportTarget acc i t) s).wk i).procs = (s.wk i).procs ∧
+    ∀ t, ((l.foldl (fun acc t => reportTarget acc i t) s).wk i).awaitersFor t =
+      if t ∈ l ∧ ((s.wk i).resultOf t).isSome = true then [] else (s.wk i).awaitersFor t
+  | [], s => ⟨rfl, fun t => by simp⟩
+  | t0 :: rest, s => by
+    simp only [List.foldl_cons]
+    obtain ⟨ih1, ih2⟩ := fold_report i rest (reportTarget s i t0)
+    obtain ⟨_, _, _, _, _, _, _, h8, _⟩ := reportTarget_explicit s i t0
+    have hp : ((reportTarget s i t0).wk i).procs = (s.wk i).procs := by rw [h8]; split <;> rfl
+    refine ⟨ih1.trans hp, ?_⟩
+    intro t
+    rw [ih2 t, resultOf_congr hp t]
+    cases hr : (s.wk i).resultOf t0 with
+    | none =>
+      have haw : ((reportTarget s i t0).wk i).awaitersFor = (s.wk i).awaitersFor := by rw [h8, hr]
+      rw [haw]
+      by_cases htt : t = t0
+      · subst htt; simp [hr]
+      · simp [htt]
+    | some r =>
+      have haw : ((reportTarget s i t0).wk i).awaitersFor = upd (s.wk i).awaitersFor t0 [] := by rw [h8, hr]
+      rw [haw]
+      by_cases htt : t = t0
+      · subst htt; simp [hr]
+      · simp [htt, upd_other _ _ _ _ htt]
+
+theorem fold_answer (i : Wid) : ∀ (l : List Pid) (s : Sys),
+    ((l.foldl (fun acc p => answerRequests acc i p) s).wk i).procs = (s.wk i).procs ∧
+    ((l.foldl (fun acc p => answerRequests acc i p) s).wk i).awaitersFor = (s.wk i).awaitersFor
+  | [], s => ⟨rfl, rfl⟩
+  | p :: rest, s => by
+    simp only [List.foldl_cons]
+    obtain ⟨ih1, ih2⟩ := fold_answer i rest (answerRequests s i p)
+    obtain ⟨_, _, _, _, _, _, _, h8, _⟩ := answerRequests_explicit s i p
+    have hp : ((answerRequests s i p).wk i).procs = (s.wk i).procs := by rw [h8]; split <;> rfl
+    have ha : ((answerRequests s i p).wk i).awaitersFor = (s.wk i).awaitersFor := by rw [h8]; split <;> rfl
+    exact ⟨ih1.trans hp, ih2.trans ha⟩
+
+/-- **`check_completed_processes` leaves nothing behind**: afterwards no awaiter is registered at this worker for a
+process that has a result -/
+theorem checkStep_chk (s : Sys) (i : Wid) (ordE : List Pid)
+    (h : ∀ t, (s.wk i).awaitersFor t ≠ [] → t ∈ (s.wk i).awaited) : Chk ((checkStep s i ordE).wk i) := by
+  unfold QM.Sys.checkStep
+  simp only []
+  obtain ⟨g1, g2⟩ := fold_answer i ((((orderBy ordE (completedAwaited (s.wk i))).foldl (fun acc t => reportTarget acc i t) s).wk i).resultReqKeys)
+    ((orderBy ordE (completedAwaited (s.wk i))).foldl (fun acc t => reportTarget acc i t) s)
+  obtain ⟨f1, f2⟩ := fold_report i (orderBy ordE (completedAwaited (s.wk i))) s
+  intro t ht
+  rw [g2, f2 t] at ht
+  rw [resultOf_congr (g1.trans f1) t]
+  cases hr : (s.wk i).resultOf t with
+  | none => rfl
+  | some r =>
+    exfalso
+    by_cases hm : t ∈ orderBy ordE (completedAwaited (s.wk i))
+    · simp [hm, hr] at ht
+    · simp only [hm, false_and, if_false] at ht
+      apply hm
+      rw [mem_orderBy]
+      simp [completedAwaited, h t ht, hr]
+
+theorem checkStep_other (s : Sys) (i : Wid) (ordE : List Pid) (k : Wid) (hk : k ≠ i) : (checkStep s i ordE).wk k = s.wk k := by
+  unfold QM.Sys.checkStep
+  apply foldl_invariant (fun s' : Sys => s'.wk k = s.wk k)
+  · intro s1 p h1; rw [((answerRequests_explicit s1 i p).2.2.2.2.2.2.1 k hk).1]; exact h1
+  · apply foldl_invariant (fun s' : Sys => s'.wk k = s.wk k)
+    · intro s1 t h1; rw [((reportTarget_explicit s1 i t).2.2.2.2.2.2.1 k hk).1]; exact h1
+    · rfl
+
+end QM.Sys
+
+namespace QM.Sys
+variable [Cfg]
+
+theorem init_no_awaiters (n : Nat) (prog : Prog) (req : Nat) (w : Wid) (t : Pid) :
+    ((Sys.init n prog req).wk w).awaitersFor t = [] := by
+  simp only [Sys.init]
+  by_cases hw : w = 0
+  · subst hw; simp [WorkerSt.setProc, WorkerSt.empty]
+  · simp [upd_other _ _ _ _ hw, WorkerSt.empty]
+
+theorem regAwaited_run (n : Nat) (prog : Prog) (req : Nat) (cs : List Choice) : RegAwaited (run (Sys.init n prog req) cs) := by
+  have := run_invariant Rules.current RegAwaited (fun s m h => h.micro m) cs (Sys.init n prog req)
+    (by intro w t ht; rw [init_no_awaiters] at ht; exact absurd rfl ht)
+  exact this
+
+theorem envStep_wk (s : Sys) (vis : List Nat) : (envStepWith mergeAnswer s vis).wk = s.wk := by
+  unfold envStepWith
+  apply foldl_invariant (fun s' : Sys => s'.wk = s.wk)
+  · intro a w ha
+    apply iter_invariant (fun s' : Sys => s'.wk = s.wk) _ _ _ a ha
+    intro b hb; rw [envStep1_wk]; exact hb
+  · rfl
+
+theorem cmdIter_other (s : Sys) (i : Wid) (k : Wid) (hk : k ≠ i) (n : Nat) :
+    (iter (fun a => cmdStep1With Rules.current a i) n s).wk k = s.wk k := by
+  apply iter_invariant (fun s' : Sys => s'.wk k = s.wk k) _ _ _ s rfl
+  intro b hb
+  unfold cmdStep1With
+  split
+  · exact hb
+  · rw [((handleCmd_frame Rules.current _ i _).2.2.2.2.2 k hk).1]; exact hb
+
+/-- **`Checked` after every choice** (the worker step ends with `check_completed_processes`; nothing else touches a
+worker's registrations or results) -/
+theorem checked_step {s : Sys} (hm : ∀ s', (∃ k fuel ordQ i, s' = execStep (iter (fun a => cmdStep1With Rules.current a i) k s) i fuel ordQ) → RegAwaited s')
+    (h : Checked s) (c : Choice) : Checked (sysStep s c) := by
+  cases c with
+  | env vis =>
+    intro w t ht
+    simp only [sysStep, sysStepWith, Rules.current] at ht ⊢
+    rw [envStep_wk] at ht ⊢
+    exact h w t ht
+  | worker i vis fuel ordQ ordE =>
+    simp only [sysStep, sysStepWith]
+    split
+    · simp only [workerStepWith]
+      intro w t ht
+      by_cases hw : w = i
+      · subst hw
+        exact checkStep_chk _ w ordE (hm _ ⟨_, fuel, ordQ, w, rfl⟩ w) t ht
+      · rw [checkStep_other _ _ _ _ hw] at ht ⊢
+        rw [((execStep_frame _ i fuel ordQ).2.2.2.2.2.2 w hw).1] at ht ⊢
+        rw [cmdIter_other _ _ _ hw] at ht ⊢
+        exact h w t ht
+    · exact h
+  | tick ms => exact h
+
+theorem checked_run (n : Nat) (prog : Prog) (req : Nat) (cs : List Choice) : Checked (run (Sys.init n prog req) cs) := by
+  -- induction from the end of the choice list
+  have key : ∀ (cs : List Choice) (s : Sys), RegAwaited s → (∀ s' m, RegAwaited s' → RegAwaited (microStep Rules.current s' m)) →
+      Checked s → Checked (run s cs) := by
+    intro cs
+    induction cs with
+    | nil => intro s _ _ h; exact h
+    | cons c rest ih =>
+      intro s hr hstep h
+      simp only [run, List.foldl_cons]
+      apply ih
+      · exact sysStep_invariant Rules.current RegAwaited hstep s c hr
+      · exact hstep
+      · apply checked_step _ h c
+        intro s' ⟨k, fuel, ordQ, i, hs'⟩
+        subst hs'
+        have h1 : RegAwaited (iter (fun a => cmdStep1With Rules.current a i) k s) :=
+          micro_iter Rules.current RegAwaited hstep (.cmd i) k s hr
+        exact hstep _ (.exec i fuel ordQ) h1
+  apply key cs _ _ (fun s m h => h.micro m)
+  · intro w t ht; rw [init_no_awaiters] at ht; exact absurd rfl ht
+  · intro w t ht; rw [init_no_awaiters] at ht; exact absurd rfl ht
+
+end QM.Sys
